@@ -158,6 +158,11 @@ def _find_search_optimizations(filters):
     prohibited_ids = set()
 
     for filter_ in filters:
+        # ("in" with a string value is a substring test: it names no values
+        # a shortcut could be derived from)
+        if filter_.op == "in" and isinstance(filter_.value, str):
+            continue
+
         if filter_.property == "type":
             if filter_.op in ("=", "in"):
                 allowed_types = _update_allow(allowed_types, filter_.value)
